@@ -142,7 +142,7 @@ func (g *FuncGen) execReturn(x *ast.ReturnStmt, st *State) {
 			g.fail("return arity mismatch")
 		}
 		for i, o := range g.resVals {
-			st.vars[o] = Val{vals[i].T, o.Type(), sortOf(o.Type())}
+			st.vars[o] = Val{coerce(vals[i], o.Type()).T, o.Type(), sortOf(o.Type())}
 		}
 	}
 	g.returns = append(g.returns, st)
@@ -288,7 +288,7 @@ func (g *FuncGen) evTuple(e ast.Expr, st *State, n int) []Val {
 		if m, ok := types.Unalias(base.Ty).Underlying().(*types.Map); ok {
 			k := g.ev(x.Index, st)
 			has, val := g.mapArrays(st, m)
-			okT := fmt.Sprintf("(select (select %s %s) %s)", has, base.T, k.T)
+			okT := fmt.Sprintf("(and (not (= %s 0)) (select (select %s %s) %s))", base.T, has, base.T, k.T)
 			vs := sortOf(m.Elem())
 			v := fmt.Sprintf("(ite %s (select (select %s %s) %s) %s)", okT, val, base.T, k.T, zeroOf(vs))
 			rv := Val{v, m.Elem(), vs}
@@ -307,6 +307,9 @@ func (g *FuncGen) evTuple(e ast.Expr, st *State, n int) []Val {
 }
 
 func (g *FuncGen) assignTo(lhs ast.Expr, v Val, st *State) {
+	if lt := g.typeOf(lhs); lt != nil {
+		v = coerce(v, lt)
+	}
 	switch l := lhs.(type) {
 	case *ast.ParenExpr:
 		g.assignTo(l.X, v, st)
@@ -656,6 +659,16 @@ func (g *FuncGen) havoc(st *State, ws *writeSet, why string) {
 		}
 		if strings.HasPrefix(k, "$map.") {
 			st.heap[k] = g.fresh("hv_"+heapName(k), "(Array Int "+g.heapKeys[k]+")")
+			if strings.HasSuffix(k, ".val") {
+				for _, m := range g.P.MapTypes {
+					if "$map."+sanitize(m.String())+".val" == k {
+						hk := strings.TrimSuffix(k, ".val") + ".has"
+						if h, ok := st.heap[hk]; ok {
+							g.mapWF(m, h, st.heap[k], st.heap["$alloc"])
+						}
+					}
+				}
+			}
 			continue
 		}
 		srt, ok := g.heapKeys[k]
